@@ -129,13 +129,15 @@ ezc3d::DataNS::Frame &ezc3d::DataNS::Data::frame_nonConst(size_t idx)
 
 void ezc3d::DataNS::Data::frame(const ezc3d::DataNS::Frame &frame, size_t idx)
 {
-    if (idx == SIZE_MAX){
-        _frames.push_back(ezc3d::DataNS::Frame());
-        _frames.back().add(frame);
-    } else {
+    // The frame may be one of the stored frames: clone it before the vector is reallocated
+    ezc3d::DataNS::Frame clone;
+    clone.add(frame);
+    if (idx == SIZE_MAX)
+        _frames.push_back(clone);
+    else {
         if (idx >= _frames.size())
             _frames.resize(idx+1);
-        _frames[idx].add(frame);
+        _frames[idx] = clone;
     }
 }
 
